@@ -6,7 +6,7 @@
 From Coq Require Import NArith ZArith List String Bool Lia.
 From V Require Import Base.UString Base.Json Model.SchemaTypes Model.PyBase Model.Schema
      Spec.StixValid Spec.SchemaRefine Proofs.SchemaBasics Proofs.SchemaValidMono Proofs.SchemaScope
-     Proofs.SchemaObject Proofs.SchemaProved Proofs.SchemaConstr Proofs.SchemaCovProved.
+     Proofs.SchemaObject Proofs.SchemaProved Proofs.SchemaConstr Proofs.SchemaCovProved Proofs.SchemaCovInv.
 Import ListNotations.
 
 Local Arguments u : simpl never.
@@ -131,6 +131,7 @@ Section CovCons.
       exists s', find_slot sc (sname s) = Some s' /\ kind_refines (skind s) (skind s') = true.
   Variable setting : list (ustring * pval).
   Hypothesis HInv : Inv sp pok sc setting.
+  Hypothesis HT : Itime c setting.
 
   Notation mem := (members c setting).
 
@@ -149,12 +150,26 @@ Section CovCons.
     apply (truthy_enc sp pok x (skind s') m Hn); [eapply truthy_safe_refines; eauto | exact Hm].
   Qed.
 
+  (* a timestamp property that is set: its serialized text denotes the stored instant *)
+  Lemma time_members p v :
+    time_slot c p = true -> mem_ustr p (dconst_names c) = false ->
+    time_of (pget p setting) = Some v ->
+    exists txt, jget p mem = Some (JStr txt) /\ instant_of_text txt = Some v.
+  Proof.
+    unfold time_slot, pget, jget. intros Hs Hd Ht. rewrite lookup_members by auto.
+    destruct (find_slot c p) as [s|] eqn:Es; try discriminate.
+    destruct (find_slot_spec _ _ _ Es) as [Hin Hname].
+    destruct (alookup p setting) as [x|] eqn:Ex; try discriminate.
+    destruct x as [|us txt| | |]; try discriminate. injection Ht as <-.
+    exists txt. split; auto. rewrite <- Hname in Ex. exact (HT s _ Hin Hs Ex).
+  Qed.
+
   Lemma cond_sound : forall q r,
     cond_ok c q = true ->
     (forall p, In p (ccond_names q) -> mem_ustr p (dconst_names c) = false) ->
     eval_ccond q setting = Ok r -> jcond q mem = Some r.
   Proof.
-    induction q; intros r Hc Hn H; cbn [eval_ccond] in H; cbn [jcond cond_ok ccond_names] in *; try discriminate.
+    induction q; intros r Hc Hn H; cbn [eval_ccond] in H; cbn [jcond cond_ok ccond_names] in *.
     - (* QTruthy *)
       injection H as <-. f_equal. unfold jget, pget. rewrite lookup_members by (apply Hn; simpl; auto).
       destruct (alookup p setting) as [x|] eqn:Ex; auto. symmetry. eapply truthy_members; eauto.
@@ -170,6 +185,20 @@ Section CovCons.
       apply encode_JBool_inv in Ex. subst x. reflexivity.
     - (* QIsNotNone *) injection H as <-. f_equal. apply jhas_members. apply Hn. simpl; auto.
     - (* QHas *) injection H as <-. f_equal. apply jhas_members. apply Hn. simpl; auto.
+    - (* QLt *)
+      apply andb_true_iff in Hc. destruct Hc as [Hca Hcb].
+      destruct (time_of (pget a setting)) as [x|] eqn:Ea; try discriminate.
+      destruct (time_of (pget b setting)) as [y|] eqn:Eb; try discriminate.
+      destruct (time_members a x Hca (Hn a (or_introl eq_refl)) Ea) as [ta [Ja Ia]].
+      destruct (time_members b y Hcb (Hn b (or_intror (or_introl eq_refl))) Eb) as [tb [Jb Ib]].
+      rewrite Ja, Jb, Ia, Ib. injection H as <-. reflexivity.
+    - (* QLe *)
+      apply andb_true_iff in Hc. destruct Hc as [Hca Hcb].
+      destruct (time_of (pget a setting)) as [x|] eqn:Ea; try discriminate.
+      destruct (time_of (pget b setting)) as [y|] eqn:Eb; try discriminate.
+      destruct (time_members a x Hca (Hn a (or_introl eq_refl)) Ea) as [ta [Ja Ia]].
+      destruct (time_members b y Hcb (Hn b (or_intror (or_introl eq_refl))) Eb) as [tb [Jb Ib]].
+      rewrite Ja, Jb, Ia, Ib. injection H as <-. reflexivity.
     - (* QAnd *)
       apply andb_true_iff in Hc. destruct Hc as [Hc1 Hc2]. inv_bind H.
       rewrite (IHq1 a Hc1) by (auto; intros p Hp; apply Hn; apply in_or_app; auto).
